@@ -98,6 +98,9 @@ package util
 
 // ---- C20: the queue's chunk list and depth are only touched under its lock (every method is atomic w.r.t. them) -------
 //@ guarded [C20] Queue.queue, Queue.depth by Queue.lock
+// lock order: the depth token is taken only while the lock is held (lock, then token, everywhere) - except in getDepth,
+// which takes the token and puts it straight back while holding nothing else, so it cannot be part of a cycle
+//@ guarded [C20] Queue.depthChan by Queue.lock except (*Queue).getDepth
 
 // the fuzzy echo test: every input byte is found in the output, in order. One step: the first occurrence of a byte is
 // found and the search goes on behind it.
